@@ -20,6 +20,7 @@ struct GSession {
     double fmin = 1e9, fmax = 2e9;
     bool has_unknown = false;
     long poison_ref = -1;	// unknown parameter named only by a refused standard of this session
+    bool rect = false;		// 2x1 (U / E types) or 1x2 (T types) calibration
 };
 
 struct CGen {
@@ -112,7 +113,9 @@ Plan cal_gen(const std::string &check, const std::string &tier, uint64_t seed, l
 	S.fmin = gfmin * (1 + 0.2 * rng.uni()); S.fmax = S.fmin + (gfmax - gfmin) * (0.3 + 0.6 * rng.uni());
 	S.todo.clear(); S.next = 0; S.applies = 0; S.has_unknown = false; S.poison_ref = -1; S.fv_late = (c10 || c16) && rng.chance(0.2); S.fv_done = !S.fv_late;
 	S.name = (int)rng.below(6);
-	bool need_full = cls != W8;
+	// a VNA that drives (or detects) on one of its two ports only
+	S.rect = S.P == 2 && cls != W16 && !c12 && rng.chance(c10 ? 0.05 : 0.15);
+	bool need_full = cls != W8 || S.rect;
 	auto shape = [&]() { return need_full ? true : rng.chance(0.5); };
 	int P = S.P;
 	if (cls == W16 && P == 2) {
@@ -156,8 +159,9 @@ Plan cal_gen(const std::string &check, const std::string &tier, uint64_t seed, l
 	    if (rng.chance(0.3)) std::swap(st.p1, st.p2);
 	    S.todo.push_back(st);
 	}
-	// redundant extras
+	// redundant extras (now and then many of them, so that the calibration's parameter table has to grow)
 	int extras = (int)rng.below(3);
+	if (c16 && !c12 && rng.chance(0.12)) extras = (int)rng.range(8, 14);
 	for (int e = 0; e < extras; ++e) {
 	    int p = (int)rng.range(1, P);
 	    if (rng.chance(0.5) || P < 2) S.todo.push_back(GStd{0, shape(), (int)rng.below(2), p, 0, {mkscalar(0.5 * rng.uni() - 0.25, 0.5 * rng.uni() - 0.25, S.sid), 0, 0, 0}, 1.0});
@@ -180,7 +184,7 @@ Plan cal_gen(const std::string &check, const std::string &tier, uint64_t seed, l
 	    S.todo.push_back(GStd{0, shape(), (int)rng.below(2), p, 0, {v, 0, 0, 0}, 1.0});
 	}
 	// an additional reflect whose value the library has to find (shared between sessions sometimes)
-	if ((cls == W8 || cls == W10) && S.P <= 2 && rng.chance(c16 ? 0.3 : 0.1)) {
+	if ((cls == W8 || cls == W10 || cls == W12) && S.P <= 2 && rng.chance(c16 ? 0.3 : c20 ? 0.25 : 0.1)) {
 	    long u;
 	    if (unknown_ref >= 0 && rng.chance(0.6)) u = unknown_ref;
 	    else {
@@ -196,14 +200,15 @@ Plan cal_gen(const std::string &check, const std::string &tier, uint64_t seed, l
 	    S.todo.push_back(GStd{0, shape(), 0, (int)rng.range(1, S.P), 0, {u, 0, 0, 0}, 1.0});
 	    S.has_unknown = true;
 	}
-	if (S.ab && rng.chance(0.3)) for (auto &st : S.todo) st.ab_scale = 0.5 + 2 * rng.uni();
+	// common scaling of a and b: any unit must do (the quotient b a^-1 does not depend on it)
+	if (S.ab && rng.chance(0.35)) for (auto &st : S.todo) st.ab_scale = rng.chance(0.5) ? 0.5 + 2 * rng.uni() : pow(10.0, rng.uni(-9.0, 9.0));
 	// scheduler-chosen order
 	for (size_t k = S.todo.size(); k > 1; --k) std::swap(S.todo[k - 1], S.todo[(size_t)rng.below((long)k)]);
 	S.state = 1;
     };
 
     auto emit_new = [&](GSession &S) {
-	Op o = g.mk("new", {S.sid, S.type, S.P, S.F, S.ab ? 1 : 0, (long)rng.below(1000000), rng.chance(0.3) ? 1 : 0, S.fv_late ? 1 : 0}, S.sid);
+	Op o = g.mk("new", {S.sid, S.type, S.P, S.F, S.ab ? 1 : 0, (long)rng.below(1000000), rng.chance(0.3) ? 1 : 0, S.fv_late ? 1 : 0, S.rect ? 1 : 0}, S.sid);
 	o.d = {S.fmin, S.fmax, rng.chance(0.5) ? 50.0 : 75.0, rng.chance(0.8) ? 0.0 : 5.0};
 	plan.ops.push_back(o);
     };
@@ -234,6 +239,17 @@ Plan cal_gen(const std::string &check, const std::string &tier, uint64_t seed, l
 		    emit_add(S, S.todo[S.next++]);
 		    // early solve attempts (too few standards reported; retried later)
 		    if (rng.chance(c20 ? 0.5 : 0.1)) { Op so = g.mk("solve", {S.sid}, S.sid); if (faults && rng.chance(0.2)) { Fault f; f.t = "alloc.vna"; f.n = rng.range(1, 60); so.f.push_back(f); } plan.ops.push_back(so); if (c20 && rng.chance(0.2)) plan.ops.push_back(g.mk("solve", {S.sid}, S.sid)); }
+		    if (c16 && !c12 && rng.chance(0.06)) {
+			// delete a scalar parameter this session has already used in a single reflect and use the
+			// same standard again: inside this vnacal_new_t the deleted handle must keep working
+			std::vector<size_t> cand;
+			for (size_t q = 0; q < S.next; ++q) if (S.todo[q].kind == 0 && S.todo[q].pref[0] >= 3 && S.todo[q].pref[0] != sh && S.todo[q].pref[0] != op_ && S.todo[q].pref[0] != ma && S.todo[q].pref[0] != unknown_ref) cand.push_back(q);
+			if (!cand.empty()) {
+			    const GStd &st0 = S.todo[cand[(size_t)rng.below((long)cand.size())]];
+			    plan.ops.push_back(g.mk("delparam", {st0.pref[0]}, S.sid));
+			    emit_add(S, st0);
+			}
+		    }
 		    if (S.P >= 2 && S.poison_ref < 0 && rng.chance(id == "C11" ? 0.15 : 0.03)) {
 			// a refused full-matrix standard: a fresh unknown parameter in its first cell, a deleted
 			// handle in its last one.  It must add nothing: the unknown stays unsolved and the
